@@ -91,9 +91,9 @@ SyncCases == [tun : SeqsUpTo(TunKinds, MaxTun), reg : SubsetsUpTo(RegNames, MaxR
 (* C50  getConnectedNodes.  A case is the sequence of measurement kinds of the connected nodes in address
    order (the order connections.Range yields).  Kinds: no measurement; only measurements older than the
    10 s window; recent average 10 / 20 / 30; "mix" = an old sample of 1 and a recent sample of 25. *)
-NodeKinds == {"none", "stale", "f10", "f20", "f30", "mix"}
+NodeKinds == {"none", "stale", "f10", "f20", "f30", "mix", "s2", "s4"}      \* s2 / s4: recent averages 10.2 and 10.4 (less than a millisecond apart)
 Recent(k) == k \notin {"none", "stale"}
-Avg(k) == CASE k = "f10" -> 10 [] k = "f20" -> 20 [] k = "f30" -> 30 [] k = "mix" -> 25 [] OTHER -> 0
+Avg(k) == CASE k = "f10" -> 100 [] k = "f20" -> 200 [] k = "f30" -> 300 [] k = "mix" -> 250 [] k = "s2" -> 102 [] k = "s4" -> 104 [] OTHER -> 0     \* tenths
 
 (* the comparator of sort.SliceStable, transcribed *)
 Less(ks, i, j) ==
